@@ -12,7 +12,8 @@ A case is a plain JSON value:
             {"start":[{"$dt"}…], "end":[…], "values":[…]})
   prices  : {key: [floats on the full grid]}
   exact   : all arithmetic of the implementation is exact in binary floating point (demand equality)
-  kind    : 'build' | 'pattern' | 'portfolio'
+  kind    : 'build' | 'pattern' | 'portfolio'   (stream 'regrid' - one object on a sequence of grids - has its own case format
+            and module, harness/comp/chpregrid.py, and judges every stage through `judge` below)
   companions : (kind 'portfolio') market / heat sink / fuel market specs
 Oracles:
   chp.pattern      all 2^T on/off patterns pinned on the REAL asset problem (HiGHS feasibility) vs the
@@ -21,6 +22,8 @@ Oracles:
                    [last − ramp, last + ramp]
   chp.start_flag   probe: start flag without off->on transition; start bounds untouched by the initial state
   chp.capacity, chp.ramp, chp.heat_share, chp.fuel, chp.start_flag    recomputed from an optimised portfolio
+  chp.commitment   the on/off pattern of an optimised portfolio (on variables, no ramp profiles) satisfies the run-length
+                   specification with the durations in steps of the grid of the case
   chp.start_costs  in a step with an off->on transition (on variables; without them read from the dispatch) the plant's
                    cash flow holds at least the start costs of THAT step beyond the costs of its other variables, with or
                    without start variables (from an optimised portfolio; lower bound only, cf. F-06b)
@@ -127,10 +130,12 @@ def gen_param(rnd, case, pts, key, lo, hi, forms, full=False, nonzero=False):
     raise ValueError(form)
 
 
-def gen_case(rnd, kind='build', tmax=10):
+def gen_case(rnd, kind='build', tmax=10, grid=None):
     freq, unit, step_s, unit_s = rnd.choice(GRIDS)
     if kind != 'build':
         freq, unit, step_s, unit_s = rnd.choice(GRIDS[:9])
+    if grid is not None:
+        freq, unit, step_s, unit_s = grid       # (stream 'regrid': the grid is chosen by the caller)
     T = rnd.randint(1, tmax)
     if kind == 'pattern':
         T = rnd.randint(2, tmax)
@@ -1098,21 +1103,33 @@ def oracle_profile_ramp(case, ir, info):
 
 
 # ------------------------------------------------------------------------------------------- (b) optimised portfolio
-def oracle_portfolio(case, info=None):
+def oracle_portfolio(case, info=None, shared=None):
     """optimise plant + markets with the real code and recompute capacity, ramp, heat share, fuel and start
     flags from x; with start / shutdown ramp profiles (bounds on the grid taken from the model: `info`) the virtual
     dispatch in the k-th step after a start / before a shutdown must lie within the k-th profile bounds, which take
-    precedence over min_cap / max_cap / ramp there"""
-    nodes = {n: eao.Node(n) for n in case['nodes']}
+    precedence over min_cap / max_cap / ramp there; the optimised on/off pattern must respect minimum runtime, minimum
+    downtime and the initial state in steps of the grid of the case (oracle chp.commitment).
+    `shared` = (asset object, {node name: Node}): an EXISTING object (set up before, possibly on other grids) takes the
+    place of a freshly constructed one (stream 'regrid')"""
+    nodes = {n: eao.Node(n) for n in case['nodes']} if shared is None else shared[1]
     with Quiet():
-        asset = build_asset(case)
-        asset.nodes = [nodes[n] for n in case['nodes']]
+        if shared is None:
+            asset = build_asset(case)
+            asset.nodes = [nodes[n] for n in case['nodes']]
+        else:
+            asset = shared[0]
         others = [scen.build_asset(s, nodes) for s in case['companions'].values()]
         portf = eao.portfolio.Portfolio([asset] + others)
         tg = scen.make_grid(case['grid'])
         prices = np_prices(case)
         op = portf.setup_optim_problem(prices, tg)
-        res = op.optimize(solver='SCIPY')
+        try:
+            res = op.optimize(solver='SCIPY')
+        except AssertionError as e:
+            # a declared state that contradicts itself in steps (running AND off before, cf. F-06d): the bounds cross
+            if 'Lower bounds must be smaller' not in str(e):
+                raise
+            res = 'bounds-contradict'
     if isinstance(res, str):
         return [], {'solved': False, 'status': res}
     with Quiet():
@@ -1200,6 +1217,20 @@ def oracle_portfolio(case, info=None):
                 viol.append(V('chp.start_flag', 'step %d: start %d, shutdown %d but on goes %d -> %d' % (t, start_r[t], shut_r[t], prev, on_r[t]),
                               kind='start_shutdown_flags', **facts))
                 break
+    # unit commitment: the on/off pattern of the optimum is one of the patterns the statement allows - minimum runtime,
+    # minimum downtime and the declared initial state, the durations converted to steps of THE GRID OF THIS CASE (the
+    # model's step counts `info`, cross-checked with ceil(duration * unit / step)); profile-free rows only (with ramp
+    # profiles the minimum runtime grows by the ramp times: no theorem, left to the row correspondence)
+    n_commit = None
+    if has_on and info and not prof and all(k in info for k in ('R', 'D', 'tar', 'tao')):
+        Rm, Dm, tarm, taom = info['R'], info['D'], info['tar'], info['tao']
+        pat = [bool(b) for b in on_r]
+        n_commit = int(Rm > 1 or Dm > 1)
+        if not py_spec(Rm, Dm, tarm, taom, pat):
+            viol.append(V('chp.commitment', 'optimised on/off pattern %s violates minimum runtime %d / minimum downtime %d steps with initial state running %d / off %d steps (grid %s, main time unit %s: min_runtime %s, min_downtime %s, time_already_running %s, time_already_off %s in main time units)' % (
+                ''.join('1' if b else '0' for b in pat), Rm, Dm, tarm, taom, case['grid']['freq'], case['grid']['unit'], a.get('min_runtime', 0),
+                a.get('min_downtime', 0), a.get('time_already_running', 0), a.get('time_already_off', 0)),
+                kind='optimum_pattern_vs_spec', R=Rm, D=Dm, tao=taom, T=T, **facts))
     # capacity
     for t in range(T):
         if phase[t]:
@@ -1329,6 +1360,8 @@ def oracle_portfolio(case, info=None):
     obs.update(extra_obs)
     if prof:
         obs['profile_steps'] = nprof
+    if n_commit is not None:
+        obs['commitment_checked'] = n_commit
     if np.any(P['start_costs'] != 0):
         obs['paid_transitions'] = n_tr       # off->on transitions in steps with non-zero start costs (oracle chp.start_costs)
     return viol, obs
@@ -1339,6 +1372,12 @@ def run_case(case, drv, pattern_tmax=7):
     r = {'disagreements': [], 'violations': [], 'features': [], 'observed': {}}
     ir = run_impl(case)
     mr = drv.ask(request(case, ir))
+    return judge(case, ir, mr, drv, r, pattern_tmax)
+
+
+def judge(case, ir, mr, drv, r, pattern_tmax=7, shared=None):
+    """correspondence of the implementation result `ir` with the model's answer `mr` and the property oracles on the real
+    problem of `ir`; `shared` = (asset object, nodes) is handed to the portfolio oracle (stream 'regrid')"""
     f = r['features']
     f.append('kind:' + case['kind'])
     f.append(case['cls'])
@@ -1420,7 +1459,7 @@ def run_case(case, drv, pattern_tmax=7):
         r['observed'].update(obs)
         f.append('patterns')
     if case['kind'] == 'portfolio':
-        v, obs = oracle_portfolio(case, info)
+        v, obs = oracle_portfolio(case, info, shared=shared)
         r['violations'] += v
         r['observed'].update(obs)
         f.append('solved' if obs.get('solved') else 'unsolved')
